@@ -47,6 +47,15 @@ func (v *Value) IsString() bool {
 	return v.getResolvedValue().Kind() == reflect.String
 }
 
+// isStringer checks whether the underlying value is printed through its String() method
+func (v *Value) isStringer() bool {
+	if v.IsNil() {
+		return false
+	}
+	_, ok := v.Interface().(fmt.Stringer)
+	return ok
+}
+
 // IsBool checks whether the underlying value is a bool
 func (v *Value) IsBool() bool {
 	return v.getResolvedValue().Kind() == reflect.Bool
